@@ -3,7 +3,7 @@ impl PrepExec {
     #[verifier::external_body]
     pub fn libc_exec(&self, exe: &[u8], Tracked(w): Tracked<&mut World>) -> (r: Result<()>)
         requires exe@.len() > 0 && exe@.last() == 0,     // the path handed to exec is NUL-terminated //[C15]
-        ensures r is Err, final(w).s.attempts == old(w).s.attempts.push(exe@),
+        ensures r is Err, final(w).s.attempts == old(w).s.attempts.push(exe@), final(w).s.last_err == r->Err_0.code,
     { unimplemented!() }
 
 }
